@@ -177,8 +177,8 @@ func init() {
 			}
 		} else {
 			maxDepth := 2
-			if c.Thorough {
-				maxDepth = 3
+			if c.Thorough && (variant == 0 || variant == 2) && !badEnvFirst {
+				maxDepth = 3 // thorough: vectors of three tokens on the first and third declaration, fresh parser
 			}
 			n := c.Choose(maxDepth + 1)
 			for i := 0; i < n; i++ {
@@ -323,11 +323,11 @@ func init() {
 		DevBound:   func(bool) int { return 2 },
 		Rule: "four declarations covering every option kind (flags, scalars, map, slice, four callback signatures incl. one that always returns an error, Unmarshaler, ValueValidator, choices on a string and on a bool flag, optional argument, non-ASCII and digit short names, " +
 			"interface-, array-, pointer-to-bool typed fields, a required option, a command with an int positional, an optional-argument option whose optional-value does not convert, a command whose only subcommand is hidden, an Unmarshaler with a value receiver, an integer with base 0 holding a value, a callback option left nil; the third declaration makes the command mandatory so that unknown words reach the unknown-command diagnosis (words of 31..33 and 64..65 characters included); the fourth is built through the API, has an executable command whose Execute returns an ErrHelp-typed error of its own, and two options (a string with a default, an int without) handed over with (*Group).AddOption; maps with named string key / value types and []*int are among the option types); option sets: None and Default with up to 2 of the 5 flags toggled (32 sets); as one more deviation the same parser first fails a parse because an environment default does not convert (must be ErrMarshal, printed exactly as PrintErrors prescribes) and is then used again; inputs: (i) every byte string of length <= 4 (quick) / <= 5 (thorough) " +
-			"over {- = a s x \" \\ 0xC3 0xA9 : 5} as a token alone, after -s, after a command word, after --; (ii) every vector of <= 2 (quick) / <= 3 (thorough) tokens over 78 pathological tokens; oracle: returns normally, error nil or typed as the CLM's fault says, " +
+			"over {- = a s x \" \\ 0xC3 0xA9 : 5} as a token alone, after -s, after a command word, after --; (ii) every vector of <= 2 tokens (thorough: <= 3 on the first and third declaration) over 78 pathological tokens; oracle: returns normally, error nil or typed as the CLM's fault says, " +
 			"stdout/stderr deltas exactly as PrintErrors prescribes; distinct = distinct (declaration, option set, error class, wrote stdout?, wrote stderr?, model fault)",
 		Assumptions:  []string{"os.Stdout / os.Stderr are swapped for files per worker process and offset deltas read per leaf", "declarations reflect.StructOf cannot build (unexported fields in positional structs) are outside the space"},
 		RequiredHits: []string{"print-errors", "help-printed", "foreign-positional-error", "err:unknown flag", "err:expected argument", "err:marshal", "err:no argument for bool", "err:invalid choice", "err:help", "err:required", "err:ok", "option-added-with-AddOption"},
-		Bound:        [2]string{"byte strings <= 4, token vectors <= 2, <= 2 option-flag deviations", "byte strings <= 5, token vectors <= 3, <= 2 option-flag deviations"},
+		Bound:        [2]string{"byte strings <= 4, token vectors <= 2, <= 2 option-flag deviations", "byte strings <= 5, token vectors <= 3 (on two of the four declarations), <= 2 option-flag deviations"},
 		BudgetS:      [2]int{170, 1500},
 	})
 }
